@@ -2,7 +2,7 @@
 import ast
 import math
 
-from .. import coqrun, maskgen as G, py2gallina as pg
+from .. import coqrun, maskgen as G, py2gallina as pg, symex as X
 from ..core import Corr, Untranslatable, Violation
 
 ID = "C06"
@@ -19,50 +19,61 @@ RULE = "center_mask_func(N, L) for all 1 <= L <= N <= 40 and centered_disk_mask 
 
 
 def generate(ctx):
+    """The three pieces of centre arithmetic, read off the value trees of a symbolic execution (vlib/symex.py): local
+    names, named intermediates and helper functions do not matter, only what is computed."""
     path = ctx.src("direct/common/subsample.py")
     tree, _ = pg.parse_file(path)
     out = ""
-    fn = pg.find_def(tree, "CartesianVerticalMaskFunc.center_mask_func", path)
-    body = pg.strip_doc(fn.body)
-    srcs = [ast.unparse(s) for s in body]
-    if srcs[0] != "mask = np.zeros(num_cols, dtype=bool)" or srcs[-1] != "return mask" or len(body) != 4:
-        raise Untranslatable("center_mask_func: body outside subset", fn.lineno, path)
-    tr = pg.ExprT({"num_cols": "N", "num_low_freqs": "L"}, path, truthy_int=False)
-    prefix, rest = pg.let_chain(body[1:2], tr)
-    if rest:
-        raise Untranslatable("center_mask_func: expected pad assignment", body[1].lineno, path)
-    asg = body[2]
-    if not (isinstance(asg, ast.Assign) and isinstance(asg.targets[0], ast.Subscript) and ast.unparse(asg.targets[0].value) == "mask" and isinstance(asg.targets[0].slice, ast.Slice) and ast.unparse(asg.value) == "True" and asg.targets[0].slice.step is None):
-        raise Untranslatable("center_mask_func: expected mask[a:b] = True", asg.lineno, path)
-    sl = asg.targets[0].slice
-    out += "Definition cm_lo (N L : Z) : Z := %s %s.\nDefinition cm_hi (N L : Z) : Z := %s %s.\n" % (prefix, tr.z(sl.lower), prefix, tr.z(sl.upper))
-    # centered_disk_mask
-    fn = pg.find_def(tree, "centered_disk_mask", path)
-    body = pg.strip_doc(fn.body)
-    srcs = [ast.unparse(s) for s in body]
-    want = ["center_x = shape[0] // 2", "center_y = shape[1] // 2", "X, Y = np.indices(shape)", "radius = int(np.sqrt(np.prod(shape) * center_scale / np.pi))", None, "return mask.astype(int)"]
-    if len(srcs) != 6 or any(w is not None and w != s for w, s in zip(want, srcs)):
-        # centre expressions may be rewritten; radius / indices lines must stay
-        if len(srcs) != 6 or srcs[2:4] != want[2:4] or srcs[5] != want[5]:
-            raise Untranslatable("centered_disk_mask: body outside subset", fn.lineno, path)
-    tr = pg.ExprT({"shape[0]": "n", "shape[1]": "m", "X": "x", "Y": "y", "radius": "r"}, path, truthy_int=False)
-    prefix, rest = pg.let_chain(body[0:2], tr)
-    if rest:
-        raise Untranslatable("centered_disk_mask: centre assignments outside subset", fn.lineno, path)
-    m = body[4]
-    if not (isinstance(m, ast.Assign) and ast.unparse(m.targets[0]) == "mask"):
-        raise Untranslatable("centered_disk_mask: expected mask = <test>", m.lineno, path)
-    out += "Definition disk_in (n m r x y : Z) : bool := %s %s.\n" % (prefix, tr.b(m.value))
-    # Magic: cap of the number of low frequencies
-    fn = pg.find_def(tree, "MagicMaskFunc.mask_func", path)
-    cap = None
-    for node in ast.walk(fn):
-        if isinstance(node, ast.Assign) and ast.unparse(node.targets[0]) == "num_low_freqs" and "target_cols_to_sample" in ast.unparse(node.value):
-            tr = pg.ExprT({"num_low_freqs": "L0", "target_cols_to_sample": "target"}, path, truthy_int=False)
-            cap = tr.z(node.value)
-    if cap is None:
-        raise Untranslatable("MagicMaskFunc: cap of num_low_freqs not found", fn.lineno, path)
-    out += "Definition magic_L (L0 target : Z) : Z := %s.\n" % cap
+    S = lambda n: ("sym", n)
+    # ---- center_mask_func: zeros(num_cols) with the slice [lo:hi] set ----
+    t, _n = X.run_function(tree, path, "CartesianVerticalMaskFunc.center_mask_func")
+    t = X.prune_raises(X.drop_do(t))
+    if t is None or t[0] != "ret":
+        raise Untranslatable("center_mask_func: result depends on a branch", None, path)
+    v = t[1]
+    ok = v[0] == "set" and v[3] == X.TRUE and v[2][0] == "slice" and v[2][3] == X.NONE and v[1][0] == "call" and v[1][1] in (("attr", S("np"), "zeros"), ("attr", S("numpy"), "zeros")) and v[1][2][:1] == (S("num_cols"),)
+    if ok:
+        dt = dict(v[1][3]).get("dtype", v[1][2][1] if len(v[1][2]) > 1 else None)
+        ok = dt in (S("bool"), ("attr", S("np"), "bool_"))
+    if not ok:
+        raise Untranslatable("center_mask_func: result is not a boolean np.zeros(num_cols) with one slice set to True: %s" % X.show(v)[:120], None, path)
+    em = X.Emit(lambda x: {S("num_cols"): "N", S("num_low_freqs"): "L"}.get(x), path)
+    out += "Definition cm_lo (N L : Z) : Z := %s.\nDefinition cm_hi (N L : Z) : Z := %s.\n" % (em.z(v[2][1]), em.z(v[2][2]))
+    # ---- centered_disk_mask: (x - cx)^2 + (y - cy)^2 < r^2 on the index grids, r from the requested area ----
+    t, _n = X.run_function(tree, path, "centered_disk_mask")
+    t = X.prune_raises(X.drop_do(t))
+    if t is None or t[0] != "ret":
+        raise Untranslatable("centered_disk_mask: result depends on a branch", None, path)
+    v = t[1]
+    if v[0] == "call" and v[1][0] == "attr" and v[1][2] == "astype" and v[2] == (S("int"),):
+        v = v[1][1]
+    shape = S("shape")
+    grid = ("call", ("attr", S("np"), "indices"), (shape,), ())
+    area = [("bin", "*", ("call", ("attr", S("np"), "prod"), (shape,), ()), S("center_scale")), ("bin", "*", ("bin", "*", ("sub", shape, X.const(0)), ("sub", shape, X.const(1))), S("center_scale"))]
+    radius = [("call", S("int"), (("call", ("attr", S("np"), "sqrt"), (("bin", "/", a_, ("attr", S("np"), "pi")),), ()),), ()) for a_ in area]
+    leafmap = {("sub", shape, X.const(0)): "n", ("sub", shape, X.const(1)): "m", ("sub", grid, X.const(0)): "x", ("sub", grid, X.const(1)): "y"}
+    for r_ in radius:
+        leafmap[r_] = "r"
+    em = X.Emit(lambda x: leafmap.get(x), path)
+    out += "Definition disk_in (n m r x y : Z) : bool := %s.\n" % em.b(v)
+    # ---- Magic: the number of ACS lines handed to center_mask_func is the request capped by the sampling budget ----
+    hits, stopped = X.watch_calls(tree, path, "MagicMaskFunc.mask_func", ["center_mask_func"], opaque={"choose_acceleration", "_reshape_and_add_coil_axis", "_broadcast_mask"})
+    hits = hits["center_mask_func"]
+    if not hits:
+        raise Untranslatable("MagicMaskFunc: no call of center_mask_func reached (%s)" % stopped, None, path)
+    pair = ("call", ("attr", S("self"), "choose_acceleration"), (), ())
+    ncols = ("sub", shape, X.const(-2))
+    rnd = lambda e: ("call", S("int"), (("call", S("round"), (e,), ()),), ())
+    leafmap = {("sub", pair, X.const(0)): "L0", rnd(("bin", "*", ncols, ("sub", pair, X.const(0)))): "L0", rnd(("bin", "/", ncols, ("sub", pair, X.const(1)))): "target"}
+    em = X.Emit(lambda x: leafmap.get(x), path)
+    caps = set()
+    for conds, args, kw in hits:
+        if len(args) != 2 or args[0] != ncols or kw:
+            raise Untranslatable("MagicMaskFunc: center_mask_func is not called with (num_cols, number of lines)", None, path)
+        caps.add(em.z(args[1]))
+    if len(caps) != 1:
+        raise Untranslatable("MagicMaskFunc: the cap differs between the fraction and the explicit-count branch: %s" % sorted(caps), None, path)
+    out += "Definition magic_L (L0 target : Z) : Z := %s.\n" % caps.pop()
     return [pg.write_gen(ctx, "C06_gen", out)]
 
 
